@@ -17,7 +17,9 @@ VARIANT = "asan"
 RULE = ("metadata blocks rendered from 1..8 generated (key, optional value) entries over the "
         "alphabet {a b c : = space 0 1 %}; keys non-empty, not starting with ':'; values may be "
         "empty and may contain ':' '='; key space kept small so repeated keys are frequent; queried "
-        "with every present key, absent keys, prefixes and extensions of keys.  Non-trivial = at "
+        "with every present key, absent keys, prefixes and extensions of keys; plus the 24 blocks the library's own macros "
+        "write for rOption(o<n>, rOptions(<n distinct symbols>), \"d\"), n = 1..24 (every argument count of the rOptions family), "
+        "read back with every 'map i'; every returned pointer is compared as an offset AND by the string it leads to.  Non-trivial = at "
         "least 2 entries and (a repeated key or a value containing ':' or '=' or an entry without value).")
 TRUSTED = ["harness/h_C17.cpp builds an rtosc::Port around the run-time block and calls Port::meta(), "
            "range-for, find, operator[], length"]
@@ -37,9 +39,27 @@ def render(es):
             out += b"=" + v + b"\0"
     return out + b"\0"
 
+# the argument lists of harness/h_C14_options.h: port o<n> is rOption(o<n>, rOptions(<the first n>), "d")
+OM_SYMS = ("alpha bravo charlie delta echo foxtrot golf hotel india juliet kilo lima mike november oscar papa "
+           "quebec romeo sierra tango uniform victor whiskey xray").split()
+OM_COUNTS = 24                    # OPTIONS_IMP1 .. OPTIONS_IMP24 in include/rtosc/port-sugar.h
+
+def macro_case(rng, n, dist):
+    """what rOption(o<n>, rOptions(s_0, ..., s_{n-1}), "d") writes, by the macros' own definitions:
+    rProp(parameter) rProp(enumerated) rOpt(0, s_0) ... rOpt(n-1, s_{n-1}) rDoc("d") - the harness
+    reads the block the compiler produced from that invocation; 'map i' must read back as s_i"""
+    es = [(b"parameter", None), (b"enumerated", None)]
+    es += [(b"map %d" % i, OM_SYMS[i].encode()) for i in range(n)]
+    es += [(b"documentation", b"d")]
+    keys = [b"map %d" % i for i in range(n + 1)] + [b"map", b"documentation", b"enumerated", b"parameter", b"min", b"map 0" + b"0"]
+    rng.shuffle(keys)
+    dist["macro-written-blocks (rOptions with 1..%d symbols)" % OM_COUNTS] = dist.get("macro-written-blocks (rOptions with 1..%d symbols)" % OM_COUNTS, 0) + 1
+    spec = ";".join(hx(k) + ("" if v is None else "=" + hx(v)) for k, v in es)
+    return "meta %s %s %s macro=%d" % (render(es).hex(), ",".join(hx(k) for k in keys), spec, n)
+
 def gen(rng, tier, dist):
     n = 4000 if tier == "quick" else 120000
-    out = []
+    out = [macro_case(rng, cnt, dist) for cnt in range(1, OM_COUNTS + 1)]
     for _ in range(n):
         ne = rng.choice([1, 1, 2, 2, 3, 3, 4, 5, 6, 7, 8])
         es = []
@@ -103,8 +123,13 @@ def expected(case):
     for q in keys:
         hit = next((i for i, (k, _) in enumerate(es) if k == q), None)
         qs.append((-1, -1) if hit is None else its[hit])
-    return "it=%s len=%d q=%s" % (";".join("%d:%d" % p for p in its), total,
-                                  ",".join("%d:%d" % p for p in qs))
+    ent = ";".join(hx(k) + ("" if v is None else "=" + hx(v)) for k, v in es)
+    qv = []
+    for q in keys:
+        hit = next((v for k, v in es if k == q), None)
+        qv.append("~" if hit is None else hx(hit))
+    return "it=%s len=%d q=%s ent=%s qv=%s" % (";".join("%d:%d" % p for p in its), total,
+                                               ",".join("%d:%d" % p for p in qs), ent, ",".join(qv))
 
 def canon(case, line):
     return line
